@@ -8,7 +8,7 @@ MANIFEST = dict(
          "(split_respects_clause_order, for pipelines of any length); clause-order evaluation of an assembled SELECT block equals "
          "pipeline-order evaluation of every admissible segment incl. WHERE/GROUP BY/HAVING/ORDER BY/LIMIT, on the reference "
          "semantics itself (assemble_correct_rel, assemble_correct_rel_perm for sorts dropped before an aggregate, "
-         "assemble_correct_rel_of_split linking admissibility to the split table); any cut of a pipeline into admissible blocks (nested sub-queries / CTEs) denotes the rows of the pipeline, so the choice of split points cannot matter (chain_correct_rel, chain_cut_independent); column-id redirects at a split commute with evaluation (split_glue_rename); documented edge cases "
+         "assemble_correct_rel_of_split linking admissibility to the split table); any cut of a pipeline into admissible blocks (nested sub-queries / CTEs) denotes the rows of the pipeline, so the choice of split points cannot matter (chain_correct_rel, chain_cut_independent); the join-to-INTERSECT rewrite keeps the same rows as a set exactly on NULL-free rows (join_all_mem_iff) and differs with NULLs / duplicates (setop_rewrite_*_counterexample, listed finding); column-id redirects at a split commute with evaluation (split_glue_rename); documented edge cases "
          "on the reference semantics. Tie: the reference semantics Model.Rel.evalSrc (Lean, executable) is compared with the rows "
          "SQLite returns for the SQL the real compiler emits, on generated programs x database instances (sqlite and generic targets).",
     note="assemble_correct_rel* are proved on Model.Rel itself (filter/derive/select/sort/take/aggregate/group-aggregate with HAVING; "
@@ -69,7 +69,7 @@ def explore(ctx, label, rng, n, profile, target, no_append=False, cases=None):
 
 def run(ctx):
     br = vlib.standard_proof_obligations(ctx, ["PrqlModel.Props.C01"], ["Split"],
-        required_theorems=["chain_correct_rel", "chain_cut_independent", "table_sound_partial", "table_sound_full_counterexample", "split_respects_clause_order", "atomic_is_suffix", "assemble_correct",
+        required_theorems=["join_all_mem_iff", "join_all_no_null", "setop_rewrite_null_counterexample", "setop_rewrite_multiplicity_counterexample", "chain_correct_rel", "chain_cut_independent", "table_sound_partial", "table_sound_full_counterexample", "split_respects_clause_order", "atomic_is_suffix", "assemble_correct",
                            "assemble_correct_agg", "split_glue_rename", "assemble_correct_rel", "assemble_correct_rel_perm", "assemble_correct_rel_of_split", "aggregate_order_independent_rel", "aggregate_one_row", "group_empty",
                            "count_counts_nulls", "sum_empty_is_zero"])
     ctx.rule = ("random well-scoped programs of the relational core (from/select/derive/filter/sort/take/aggregate/group/join/append, "
